@@ -7,3 +7,16 @@ K('C19.p.1', property='C19', engine='symex', harness='C19/proto.cpp', entry='k_p
   defines={'all': {'VF_NPRE': 3, 'VF_NRUN': 1, 'G_MAXID': 9}},
   bounds={'quick': 'x'}, timeout_ms={'quick': 120000}, validate={'quick': 20},
   what='x', out='x', assumptions=[], stubs=[])
+K('C19.p.2', property='C19', engine='symex', harness='C19/proto.cpp', entry='k_proto_varcreator', tus=_BASE,
+  defines={'all': {'VF_NPRE': 3, 'VF_NRUN': 1, 'G_MAXID': 9}},
+  bounds={'quick': 'x'}, timeout_ms={'quick': 120000}, validate={'quick': 20},
+  what='x', out='x', assumptions=[], stubs=[])
+_KRIG = _BASE + ['src/Calculators/ACalcInterpolator.cpp', 'src/Estimation/CalcKriging.cpp']
+for _id, _d in (('C19.a.1', {}), ('C19.a.2', {'VF_SINGLE': 1}), ('C19.a.3', {'VF_DGM': 1}), ('C19.a.4', {'VF_FEX': 1, 'G_MAXID': 12}),
+                ('C19.a.5', {'VF_XVALID': 1}), ('C19.a.6', {'VF_NDIM': 2, 'VF_NVAR': 2, 'G_MAXID': 16})):
+    _dd = {'VF_NDIM': 1, 'VF_NVAR': 1, 'G_MAXID': 10}
+    _dd.update(_d)
+    K(_id, property='C19', engine='symex', harness='C19/kriging.cpp', entry='k_kriging', tus=_KRIG,
+      defines={'all': _dd},
+      bounds={'quick': 'x'}, timeout_ms={'quick': 120000}, validate={'quick': 20},
+      what='x', out='x', assumptions=[], stubs=[])
